@@ -18,6 +18,17 @@ def main() -> int:
     ap.add_argument("--replay", default=None)
     args = ap.parse_args()
     seed = int(os.environ.get("VERIF_SEED", "0") or 0)
+    # a check that hangs is an infrastructure failure (exit 2), never a verdict and never an endless run
+    # (a timer thread, not SIGALRM: some checks use the real-time timer for their own per-case guards)
+    import threading
+    limit = int(os.environ.get("VERIF_TIMEOUT", "1800" if args.tier == "quick" else "7200"))
+
+    def _too_long():
+        print(f"[{args.prop.upper()}] infrastructure error: the check did not finish within {limit} s", file=sys.stderr, flush=True)
+        os._exit(2)
+    _wd = threading.Timer(limit, _too_long)
+    _wd.daemon = True
+    _wd.start()
     prop = args.prop.upper()
     try:
         mod = importlib.import_module(f"props.{prop.lower()}")
